@@ -44,7 +44,7 @@ pub fn mutants1(toks: &[String]) -> Vec<String> {
 pub fn corpus() -> Vec<String> {
     let mut v = vec![];
     for f in ["doc_rules.txt", "suite_rules.txt", "ie_rules.txt"] {
-        let s = std::fs::read_to_string(format!("/verif/fixtures/{}", f)).unwrap_or_else(|_| panic!("fixture {f} missing"));
+        let s = std::fs::read_to_string(format!("{}/fixtures/{}", crate::util::root(), f)).unwrap_or_else(|_| panic!("fixture {f} missing"));
         for l in s.lines() { if !l.trim().is_empty() && !v.contains(&l.to_string()) { v.push(l.to_string()); } }
     }
     v
@@ -269,7 +269,7 @@ pub fn run() -> i32 {
     r.guard(f5.ok > 1000, "alias family: more than 1000 calls returned Ok");
     tot.merge(f5);
     // ---- family 6: modifier grammar — every feature / node / suprasegmental spelling (plus near-names) x every value form x every slot
-    let syn: Value = serde_json::from_str(&std::fs::read_to_string("/verif/fixtures/feature_synonyms.json").expect("feature_synonyms fixture")).expect("fixture json");
+    let syn: Value = serde_json::from_str(&std::fs::read_to_string(format!("{}/fixtures/feature_synonyms.json", crate::util::root())).expect("feature_synonyms fixture")).expect("fixture json");
     let mut names: Vec<String> = vec![];
     for (_, v) in syn.as_object().expect("fixture object") { for sp in v["spellings"].as_array().expect("spellings") { names.push(sp.as_str().unwrap().to_string()); } }
     for extra in ["tone", "ton", "tn", "tne", "length", "len", "syllable", "seg", "xyz", "PLACE", "Voice", "t", "α"] { names.push(extra.to_string()); }
@@ -312,7 +312,7 @@ pub fn run() -> i32 {
     r.states_count_override = Some(tot.distinct_err.len() as u64 + 2);
     r.outcome("ok", tot.ok); r.outcome("err", tot.err); r.outcome("crash_cases", tot.crashes.values().map(|x| x.0).sum());
     r.extra.insert("crash_classes".into(), json!(tot.crashes.iter().map(|(k, v)| json!({"class": k, "cases": v.0, "example": v.1.desc})).collect::<Vec<_>>()));
-    if std::env::var("VERIF_DUMP").is_ok() { let _ = std::fs::write("/verif/target/c02_crash_rules.json", serde_json::to_string_pretty(&json!(tot.crash_rules)).unwrap()); }
+    if std::env::var("VERIF_DUMP").is_ok() { let _ = std::fs::write(format!("{}/target/c02_crash_rules.json", crate::util::root()), serde_json::to_string_pretty(&json!(tot.crash_rules)).unwrap()); }
     r.sample(json!({"family": "deviation1", "rule": mutants1(&tokenize("a > e / _#"))[7]}));
     r.sample(json!({"family": "noise", "string": noise_string(12345, 3)}));
     r.sample(json!({"family": "grammar", "rule": rulegen::rules_of_size(3)[777].text()}));
